@@ -24,7 +24,7 @@ REQUIRED_BUCKETS = ['qe:scalar', 'qe:vector', 'qe:spectrum', 'qe:offset-table', 
                     'bayer:k=2', 'bayer:k=3', 'bayer:k=4', 'bayer:os=1', 'bayer:os=2', 'bayer:os>=3', 'bayer:nonsquare',
                     'bayer:channels', 'bayer:spectrum-qe', 'bayer:unit!=nm', 'gain:scalar', 'gain:poly', 'gain:pixel', 'gain:pixel-poly', 'adc:negative',
                     'adc:saturated', 'adc:dtype', 'adc:warn', 'adc:max==capacity', 'adc:small-int-frame', 'bayer:cube-not-float64', 'adc:beyond-dtype-range', 'adc:capacity=0',
-                    'qe:narrow-qe-vector', 'qe:table-ends-other-unit', 'qe:single-wavelength']
+                    'qe:narrow-qe-vector', 'qe:table-ends-other-unit', 'qe:single-wavelength', 'cube:narrow-float']
 REQUIRED_ANCHORS = ['probe:collect_charge', 'probe:collect_charge_bayer', 'probe:adc', 'anchor:qe_asarray',
                     'anchor:format_bayer_string']
 REQUIRED_ORACLES = ['charge=sum', 'charge:qe-forms', 'charge:linear', 'bayer=pattern', 'bayer:equal-qe=mono',
@@ -274,6 +274,29 @@ def workload(ctx, lentil):
             outb = D.collect_charge_bayer(img, wave_nm * sm.wave_factor('nm', unit), spec, spec, spec, pat, waveunit=unit)   # probe
         except Exception as e:
             ctx.check(False, 'charge:qe-forms', f'offset-table|raises={type(e).__name__}', str(e), desc)
+
+    # ---- photon cubes held in single / half precision: the charge is the same number whichever of the three efficiency forms is used
+    # (the sum over wavelength is formed in double precision, not in the cube's own type)
+    for i in range(max(9, n // 8)):
+        nw = int(rng.integers(3, 9))
+        wave_nm = 400.0 + 40.0 * np.arange(nw)
+        shape = (int(rng.integers(2, 7)), int(rng.integers(2, 7)))
+        cdt = [np.float32, np.float16][i % 2]
+        hi = 3e4 if cdt is np.float16 else 1e6           # half precision: the sum over slices exceeds 65504
+        cube = rng.uniform(0.3 * hi, hi, size=(nw,) + shape).astype(cdt)
+        q = float(rng.uniform(0.2, 0.95))
+        form = i % 3
+        desc = {'charge': 'narrow-float-cube', 'cube': np.dtype(cdt).name, 'form': ['scalar', 'vector', 'spectrum'][form], 'nw': nw}
+        ctx.case(desc, ['cube:narrow-float'])
+        ref = q * cube.astype(float).sum(axis=0)
+        try:
+            qe = [q, np.full(nw, q), R.Spectrum(wave_nm, np.full(nw, q))][form]
+            out = D.collect_charge(cube, wave_nm, qe)                                  # probe decides as well
+            ctx.close('charge:qe-forms', np.asarray(out, float), ref, 1e-12, f'charge|narrow-float-cube|{desc["form"]}',
+                      'the charge collected from a single / half precision photon cube is not efficiency times the sum of its slices '
+                      '(formed in double precision)', desc, scale=float(ref.max()))
+        except Exception as e:
+            ctx.check(False, 'charge:qe-forms', f'narrow-float-cube|raises={type(e).__name__}', str(e), desc)
 
     # ---- efficiencies in the types and at the wavelengths users hand over: a 0/1 band-pass vector held as bool / uint8 together with an
     # integer photon cube; a table sampled exactly AT its own end wavelengths written in another unit; a single wavelength
